@@ -1245,6 +1245,14 @@ def _walk_ipersistentlist(form: IPersistentList | ISeq, inner_f, outer_f):
     return outer_f(coll)
 
 
+@_walk.register(lqueue.PersistentQueue)
+def _walk_persistentqueue(form: lqueue.PersistentQueue, inner_f, outer_f):
+    coll = lqueue.queue(map(inner_f, form))
+    if form.meta is not None:
+        coll = coll.with_meta(form.meta)
+    return outer_f(coll)
+
+
 @_walk.register(IPersistentVector)
 def _walk_ipersistentvector(form: IPersistentVector, inner_f, outer_f):
     coll = vec.vector(map(inner_f, form))
